@@ -5,9 +5,12 @@ import GoBk.Model.Der
 import GoBk.Model.Ecdsa
 import GoBk.Model.Wif
 import GoBk.Model.Bip32
+import GoBk.Model.XKeyStore
 import GoBk.Model.Bip39
 import GoBk.Model.Ecies
 import GoBk.Model.Envelope
+import Driver.FieldOps
+import Driver.MemOps
 /-
   Line-protocol driver: one operation per input line, one result per output line.
   See DESIGN.md (Appendix B) for the op names.  Core Lean only (links as an executable).
@@ -34,14 +37,8 @@ def ptStr (p : Pt) : String := nhx p.1 ++ " " ++ nhx p.2
 def b2s (b : Bool) : String := if b then "1" else "0"
 
 /-! ### extended-key histories (`xk`) -/
-structure Net where
-  addrID : UInt8
-  hdPriv : Bytes
-  hdPub : Bytes
-
-structure XState where
-  objs : Array Bip32.XKey := #[]
-  regs : Array (Option Nat) := #[]     -- register → object id
+open GoBk.XKeyStore (Net)
+abbrev XState := XKeyStore.State
 
 def parseNets (s : String) : Option (List Net) :=
   (s.splitOn ";").mapM fun n =>
@@ -63,38 +60,14 @@ def obsKey (nets : List Net) (k : Bip32.XKey) : String :=
   "|F=" ++ nhx (Bip32.parentFingerprint k) ++ "|A=" ++ hx (Bip32.address pr k addrID) ++
   "|K=" ++ pub ++ "|V=" ++ prv
 
-/-- memo tables of the driver (pure-function caches; they change no result) -/
+/-- memo table of the driver for observations (a pure-function cache; it changes no result) -/
 structure Cache where
   obs : Std.HashMap Bip32.XKey String := {}
-  child : Std.HashMap (Bip32.XKey × Nat) (Except Bip32.Err Bip32.XKey) := {}
-  neuter : Std.HashMap Bip32.XKey (Except Bip32.Err Bip32.XKey) := {}
 
 def obsKeyC (nets : List Net) (c : Cache) (k : Bip32.XKey) : String × Cache :=
   match c.obs[k]? with
   | some s => (s, c)
   | none => let s := obsKey nets k; (s, { c with obs := c.obs.insert k s })
-
-def childC (c : Cache) (k : Bip32.XKey) (i : Nat) : Except Bip32.Err Bip32.XKey × Cache :=
-  match c.child[(k, i)]? with
-  | some r => (r, c)
-  | none => let r := Bip32.child pr k i; (r, { c with child := c.child.insert (k, i) r })
-
-def neuterC (reg : Bip32.Registry) (c : Cache) (k : Bip32.XKey) : Except Bip32.Err Bip32.XKey × Cache :=
-  match c.neuter[k]? with
-  | some r => (r, c)
-  | none => let r := Bip32.neuter reg k; (r, { c with neuter := c.neuter.insert k r })
-
-/-- derivation by path through the cached `child` (same function as `Bip32.deriveChildFromPath`,
-    unfolded so that each step is memoised) -/
-def derivePathC (c : Cache) : Bip32.XKey → List Bytes → Except Bip32.Err Bip32.XKey × Cache
-  | k, [] => (.ok k, c)
-  | k, comp :: cs =>
-    match Bip32.childIndex comp with
-    | none => (.error .badPath, c)
-    | some i =>
-      match childC c k i with
-      | (.error e, c) => (.error e, c)
-      | (.ok k', c) => derivePathC c k' cs
 
 /-- observe the live registers (all of them, or the 16 most recent when there are more) -/
 def obsAll (nets : List Net) (c : Cache) (st : XState) : String × Cache := Id.run do
@@ -114,67 +87,21 @@ def obsAll (nets : List Net) (c : Cache) (st : XState) : String × Cache := Id.r
       | none => parts := parts.push "e"
   (",".intercalate parts.toList, c)
 
-def XState.newObj (st : XState) (r : Except Bip32.Err Bip32.XKey) : XState :=
-  match r with
-  | .ok k => { objs := st.objs.push k, regs := st.regs.push (some st.objs.size) }
-  | .error _ => { st with regs := st.regs.push none }
-
-def XState.get (st : XState) (reg : Nat) : Option (Nat × Bip32.XKey) :=
-  match st.regs[reg]? with
-  | some (some id) => (st.objs[id]?).map fun k => (id, k)
-  | _ => none
-
-def xkOp (nets : List Net) (reg : Bip32.Registry) (c : Cache) (st : XState) (op : String) : Option (XState × Cache) :=
+/-- parse one textual operation of an `xk` line -/
+def parseXkOp (op : String) : Option XKeyStore.Op :=
   let kind := op.take 1 |>.toString
   let rest := (op.drop 1).toString
-  let parts := rest.splitOn ":"
-  match kind, parts with
-  | "c", [r, i] => do
-    let r ← r.toNat?; let i ← i.toNat?
-    if r ≥ st.regs.size then none else
-    match st.get r with
-    | none => pure ({ st with regs := st.regs.push none }, c)
-    | some (_, k) => let (res, c) := childC c k i; pure (st.newObj res, c)
-  | "n", [r] => do
-    let r ← r.toNat?
-    if r ≥ st.regs.size then none else
-    match st.get r with
-    | none => pure ({ st with regs := st.regs.push none }, c)
-    | some (id, k) =>
-      if !k.isPrivate then pure ({ st with regs := st.regs.push (some id) }, c)   -- same object
-      else let (res, c) := neuterC reg c k; pure (st.newObj res, c)
-  | "p", [r, p] => do
-    let r ← r.toNat?; let p ← unhex p
-    if r ≥ st.regs.size then none else
-    match st.get r with
-    | none => pure ({ st with regs := st.regs.push none }, c)
-    | some (id, k) =>
-      if p.isEmpty then pure ({ st with regs := st.regs.push (some id) }, c)      -- same object
-      else let (res, c) := derivePathC c k (Bip32.splitOn 47 p); pure (st.newObj res, c)
-  | "t", [r] => do
-    let r ← r.toNat?
-    if r ≥ st.regs.size then none else
-    match st.get r with
-    | none => pure ({ st with regs := st.regs.push none }, c)
-    | some (_, k) => pure (st.newObj (Bip32.fromString pr (Bip32.toString pr k)), c)
-  | "s", [r, n] => do
-    let r ← r.toNat?; let n ← n.toNat?
-    if r ≥ st.regs.size then none else
-    let net ← nets[n]?
-    match st.get r with
-    | none => pure (st, c)
-    | some (id, k) => pure ({ st with objs := st.objs.set! id (Bip32.setNet k net.hdPriv net.hdPub) }, c)
-  | "z", [r] => do
-    let r ← r.toNat?
-    if r ≥ st.regs.size then none else
-    match st.get r with
-    | none => pure (st, c)
-    | some (id, k) => pure ({ st with objs := st.objs.set! id (Bip32.zero k) }, c)
+  match kind, rest.splitOn ":" with
+  | "c", [r, i] => do let r ← r.toNat?; let i ← i.toNat?; pure (.child r i)
+  | "n", [r] => do let r ← r.toNat?; pure (.neuter r)
+  | "p", [r, p] => do let r ← r.toNat?; let p ← unhex p; pure (.path r p)
+  | "t", [r] => do let r ← r.toNat?; pure (.reparse r)
+  | "s", [r, n] => do let r ← r.toNat?; let n ← n.toNat?; pure (.setNet r n)
+  | "z", [r] => do let r ← r.toNat?; pure (.zero r)
   | _, _ => none
 
 def runXk (c : Cache) (netsS rootS opsS : String) : Option (String × Cache) := do
   let nets ← parseNets netsS
-  let reg : Bip32.Registry := nets.map fun n => (n.hdPriv, n.hdPub)
   let root ← match rootS.splitOn ":" with
     | ["seed", h, n] => do
       let seed ← unhex h; let n ← n.toNat?; let net ← nets[n]?
@@ -183,7 +110,7 @@ def runXk (c : Cache) (netsS rootS opsS : String) : Option (String × Cache) := 
       let s ← unhex h
       pure (Bip32.fromString pr s)
     | _ => none
-  let st0 := (XState.newObj {} root)
+  let st0 := (XKeyStore.State.newObj {} root)
   let ops := if opsS == "-" then [] else opsS.splitOn ";"
   let mut st := st0
   let mut c := c
@@ -191,9 +118,10 @@ def runXk (c : Cache) (netsS rootS opsS : String) : Option (String × Cache) := 
   c := c'
   let mut out := o
   for op in ops do
-    let (st', c') ← xkOp nets reg c st op
+    let op ← parseXkOp op
+    let st' ← XKeyStore.step pr nets st op
     st := st'
-    let (o, c'') := obsAll nets c' st
+    let (o, c'') := obsAll nets c st
     c := c''
     out := out ++ "/" ++ o
   pure ("ok " ++ out, c)
@@ -329,7 +257,7 @@ def runOp (op : String) (a : List String) : Option String :=
   | "rng.entropy", [n, t] => do
     let n ← n.toNat?; let t ← untape t
     pure (match Rng.generateEntropy n t with | some (b, _) => "ok " ++ hx b | none => "err")
-  | _, _ => none
+  | op, args => (Driver.runFieldOp op args).orElse fun _ => Driver.runMemOp op args
 
 partial def loop (hin hout : IO.FS.Stream) (c : Cache) : IO Unit := do
   let line ← hin.getLine
